@@ -571,6 +571,9 @@ type faultCase struct {
 	stdin  string
 	shape  string
 	expect string // "fail" (must fail loudly)
+	// for --all runs that legitimately write earlier files before failing (known finding
+	// C16-update-all-partial): the rule with this id must keep its line whatever else happens
+	mustKeep string
 }
 
 func suiteTreeFaults(env *Env, res *Result) {
@@ -651,6 +654,28 @@ func suiteTreeFaults(env *Env, res *Result) {
 			}
 		}
 		tg := valid[0]
+		// a name that only ANOTHER (lexically earlier) assembly file stores: each file has its own stash
+		if len(valid) >= 2 {
+			f := clone()
+			a, b := valid[0], valid[len(valid)-1]
+			if a.File > b.File {
+				a, b = b, a
+			}
+			f["root/regex-assembly/"+a.File] = "ab\ncd\n##!=< shared-part\nkeep\n"
+			f["root/regex-assembly/"+b.File] = "gh\n##!=> shared-part\n"
+			cases = append(cases,
+				&faultCase{name: "stored_name_of_other_file/update--all", files: f, args: []string{"regex", "update", "--all"}, shape: "c16_stored_name_of_other_file_update_all", mustKeep: b.ID},
+				&faultCase{name: "stored_name_of_other_file/compare--all", files: f, args: []string{"-o", "github", "regex", "compare", "--all"}, shape: "c16_stored_name_of_other_file"},
+				&faultCase{name: "stored_name_of_other_file/update", files: f, args: []string{"regex", "update", b.Arg}, shape: "c16_stored_name_of_other_file"})
+		}
+		// chain offsets beyond uint8 in FILE NAMES met by an --all walk
+		for _, k := range []string{"256", "257", "300", "18446744073709551616"} {
+			f := clone()
+			f["root/regex-assembly/"+valid[0].ID+"-chain"+k+".ra"] = "wrapped\n"
+			cases = append(cases,
+				&faultCase{name: "chain_offset_overflow_in_file_name/update--all", files: f, args: []string{"regex", "update", "--all"}, shape: "c16_chain_offset_overflow_update_all", mustKeep: valid[0].ID},
+				&faultCase{name: "chain_offset_overflow_in_file_name/compare--all", files: f, args: []string{"regex", "compare", "--all"}, shape: "c16_chain_offset_overflow"})
+		}
 		// rule / chain / rules-file faults
 		f := clone()
 		f["root/regex-assembly/942990.ra"] = "x\n"
@@ -719,7 +744,19 @@ func suiteTreeFaults(env *Env, res *Result) {
 		sort.Strings(changed)
 		if o.res.Exit == 0 {
 			res.addFailure(Failure{Kind: "C16", Shape: c.shape + "_exit_zero", Input: input, Detail: fmt.Sprintf("exit 0; stdout %q; changed %v", clip(o.res.Stdout, 200), changed)})
+			if strings.Contains(c.name, "stored_name_of_other_file") {
+				// the same observation is a C08 violation: --all did for this file what the file alone does not
+				res.addFailure(Failure{Kind: "C08", Shape: "c08_state_of_one_file_reaches_another", Input: input, Detail: fmt.Sprintf("exit 0; changed %v", changed)})
+			}
 			continue
+		}
+		if c.mustKeep != "" {
+			// the faulty file's own rule must be untouched, even if earlier files were written
+			for _, p := range changed {
+				if ruleLineChanged(c.files[p], o.after[p], c.mustKeep) {
+					res.addFailure(Failure{Kind: "C16", Shape: c.shape + "_faulty_rule_rewritten", Input: input, Detail: fmt.Sprintf("exit %d, rule %s rewritten in %s", o.res.Exit, c.mustKeep, p)})
+				}
+			}
 		}
 		if len(changed) > 0 {
 			res.addFailure(Failure{Kind: "C16", Shape: c.shape + "_files_modified", Input: input, Detail: fmt.Sprintf("exit %d but modified %v", o.res.Exit, changed)})
@@ -824,4 +861,18 @@ func suiteCompareHistory(env *Env, res *Result) {
 			res.addFailure(f)
 		}
 	}
+}
+
+// did the SecRule line above "id:<id>" change between two versions of a rules file?
+func ruleLineChanged(before, after, id string) bool {
+	find := func(text string) string {
+		lines := strings.Split(text, "\n")
+		for i, l := range lines {
+			if strings.Contains(l, "id:"+id) && i > 0 {
+				return lines[i-1]
+			}
+		}
+		return ""
+	}
+	return find(before) != find(after)
 }
